@@ -214,6 +214,8 @@ class Rejections(_Cfg):
         ('deprecated:dtype_u=None', 'ParameterError'), ('deprecated:dtype_f=None', 'ParameterError'), ('deprecated:dtype_u=False', 'ParameterError'),
         ('controller:pfasst_without_right_node', 'ControllerError'),
         ('unknown:quad_type', 'any'), ('unknown:QI', 'any'), ('unknown:node_type', 'any'),
+        # an unknown preconditioner name AFTER a valid one was resolved on the same sweeper (second matrix of a sweeper, later request on a set-up sweeper)
+        ('unknown:Q2_after_valid_Q1', 'any'), ('unknown:QE_after_valid_QI', 'any'), ('unknown:later_implicit_request', 'any'), ('unknown:later_explicit_request', 'any'),
         ('frozen:unknown_level_param_is_accepted_as_attribute', 'none'),
         ('unknown:controller_param', 'TypeError'), ('unknown:step_status_assignment', 'TypeError'),
         ('none', 'none'),
@@ -262,6 +264,17 @@ class Rejections(_Cfg):
             d['sweeper_params']['QI'] = 'NOT-A-PRECONDITIONER'
         elif f == 'unknown:node_type':
             d['sweeper_params']['node_type'] = 'BOGUS'
+        elif f == 'unknown:Q2_after_valid_Q1':
+            d['sweeper_class'] = cls_of('pySDC/implementations/sweeper_classes/multi_implicit.py', 'multi_implicit')
+            d['problem_params'] = dict(kind='comp2')
+            d['sweeper_params'].update(Q1='IE', Q2='LU-typo')
+        elif f == 'unknown:QE_after_valid_QI':
+            d['sweeper_class'] = cls_of('pySDC/implementations/sweeper_classes/imex_1st_order.py', 'imex_1st_order')
+            d['problem_params'] = dict(kind='imex')
+            d['sweeper_params'].update(QI='LU', QE='EE-typo')
+        elif f == 'unknown:later_explicit_request':
+            d['sweeper_class'] = cls_of('pySDC/implementations/sweeper_classes/imex_1st_order.py', 'imex_1st_order')
+            d['problem_params'] = dict(kind='imex')
         elif f == 'unknown:controller_param':
             pass
         elif f == 'frozen:unknown_level_param_is_accepted_as_attribute':
@@ -274,6 +287,10 @@ class Rejections(_Cfg):
                 c.params.not_a_parameter = 1
             if f == 'unknown:step_status_assignment':
                 c.MS[0].status.itre = 0  # typo of `iter`
+            if f == 'unknown:later_implicit_request':
+                c.MS[0].levels[0].sweep.get_Qdelta_implicit('LU-typo')
+            if f == 'unknown:later_explicit_request':
+                c.MS[0].levels[0].sweep.get_Qdelta_explicit('EE-typo')
             return c
 
         st.call = call
@@ -719,7 +736,18 @@ def bounded_frozen_objects_of_a_controller(tier, seed):
                              failures=sum(1 for o in obs if o['status'] != 'proved')))
 
 
+def _unknown_predictor_contract():
+    # "unknown predictor names are rejected at first use": the contract of controller_nonMPI.predict (C07), restricted to its unknown-name instances
+    from contracts.C07_block import Predict, UNKNOWN_PREDICTORS
+
+    def instances(self, tier):
+        return [i for i in Predict.instances(self, tier) if i['predict_type'] in UNKNOWN_PREDICTORS or i['predict_type'] == 'bogus']
+
+    return type('UnknownPredictor_C20', (Predict,), dict(prop='C20', instances=instances))
+
+
+
 EXTRAS = [bounded_frozen_objects_of_a_controller]
 
-CONTRACTS = [DictToList, Hierarchy, Rejections, ControllerGuards, Frozen, ReadOnlyParams, ConvergenceControllerSetup, UnknownNamesAtFirstUse]
+CONTRACTS = [_unknown_predictor_contract(), DictToList, Hierarchy, Rejections, ControllerGuards, Frozen, ReadOnlyParams, ConvergenceControllerSetup, UnknownNamesAtFirstUse]
 UNDECIDED = ['ParaDiag option conflicts are checked under C15', 'unknown residual_type: C03.compute_residual.unknown_type_rejected; unknown predict_type / stage: C07.predict / C07.pfasst']
